@@ -19,7 +19,7 @@ def run(prop, tier, seed, out):
             raise Broken("deviation sign_error_ignored does not violate NeverForwardedUnsignedWhenSigningFailed (vacuous)")
         outp = scr.path("ce.json")
         t0 = time.time()
-        p = run_vh(vh, ["ce-replay", "-vectors", vec.out_path, "-seed", str(seed), "-n", "2" if quick else "20", "-out", outp], timeout=2400)
+        p = run_vh(vh, ["ce-replay", "-vectors", vec.out_path, "-seed", str(seed), "-n", "2" if quick else "100", "-out", outp], timeout=3000)
         if p.returncode != 0:
             raise Broken("ce-replay failed: " + p.stderr[-1500:])
         r = json.load(open(outp))
